@@ -9,6 +9,8 @@
 import GoldilocksVerif.Lemmas.NttTop
 import GoldilocksVerif.Lemmas.BridgeNttTop
 import GoldilocksVerif.Lemmas.BridgeNttBuf
+import GoldilocksVerif.Lemmas.BridgeNttBlocks
+import GoldilocksVerif.Lemmas.BridgeNttBufEq
 
 namespace GoldilocksVerif.C04
 open GoldilocksVerif.Model.Ntt GoldilocksVerif.NttSpec Finset
@@ -204,5 +206,99 @@ theorem C04_generated_inverse_transform_buffer (maxDomainSize extension : Nat) (
   rw [hsz]; by_cases h : D = Sx <;> simp [h, hsrc, hdsts]
 
 end generated
+
+/-! ### the generated model, EVERY `nblock` and size 1 (see the section of the same name in Props/C03.lean) -/
+section generated_all
+open GoldilocksVerif.BridgeNtt Gen.NttGen
+
+/-- generated `INTT` = the model's `intt`, every `nblock`, every size 1 ≤ 2^K ≤ 2^30, bit for bit; nothing but the destination
+    block changes.  Fuel: `itersFuel` (64 for K ≥ 1; Props/C03.lean `C03_generated_fuel`) -/
+theorem C04_generated_INTT_eq_model_all (fuel : Nat) (hp : Heap) (self : NTT_Goldilocks) (o : Obj)
+    (hrep : ObjRep hp self o) (hin : ObjIn hp self) (D Sx : Nat) (hD : D < hp.size) (hSx : Sx < hp.size) (hD0 : D ≠ 0)
+    (hfrD : ObjFrame self D) (mode : DstMode) (hmode : mode = .other ↔ D ≠ Sx)
+    (dst : Ptr) (hdst : (if (dst == Ptr.null) = true then (⟨Sx, 0⟩ : Ptr) else dst) = ⟨D, 0⟩)
+    (K N NC : Nat) (nphase nblock : BitVec 64) (extend : Bool)
+    (hK : K ≤ 30) (hN : N = 2 ^ K) (hKs : K ≤ o.s) (hos : o.s ≤ 32) (hNC1 : 1 ≤ NC)
+    (hNNC8 : N * NC * 8 < 2 ^ 64) (hext31 : o.extension < 2 ^ 31) (hcache : extend = true → o.rcache ≠ none)
+    (hf : itersFuel self K NC ≤ fuel) :
+    match intt o mode (hp.block D) (hp.block Sx) N NC nphase.toNat nblock.toNat extend with
+    | .ok (d, _) => NTT_INTT fuel hp self dst ⟨Sx, 0⟩ (bv N) (bv NC) Ptr.null nphase nblock extend = some (hp.setBlock D d)
+    | .error _ => NTT_INTT fuel hp self dst ⟨Sx, 0⟩ (bv N) (bv NC) Ptr.null nphase nblock extend = none :=
+  INTT_gen_all fuel hp self o hrep hin D Sx hD hSx hD0 hfrD mode hmode dst hdst K N NC nphase nblock extend hK hN hKs hos hNC1
+    hNNC8 hext31 hcache hf
+
+/-- **the property on the generated function, every `nblock`, every size 1 ≤ 2^d ≤ min(maxDomainSize, 2^30)**: the TRANSLATED
+    `INTT` returns, changes only the destination block, and that block holds the inverse DFT of every column -/
+theorem C04_generated_inverse_transform_all (maxDomainSize extension : Nat) (o : Obj)
+    (hobj : mkObj maxDomainSize extension = some o) (hext : extension ≤ 1) (d : Nat) (hd30 : d ≤ 30) (hn : 2 ^ d ≤ maxDomainSize)
+    (fuel : Nat) (hp : Heap) (self : NTT_Goldilocks) (hrep : ObjRep hp self o) (hin : ObjIn hp self)
+    (D Sx : Nat) (hD : D < hp.size) (hSx : Sx < hp.size) (hD0 : D ≠ 0) (hfrD : ObjFrame self D)
+    (mode : DstMode) (hmode : mode = .other ↔ D ≠ Sx)
+    (dst : Ptr) (hdst : (if (dst == Ptr.null) = true then (⟨Sx, 0⟩ : Ptr) else dst) = ⟨D, 0⟩)
+    (ncols : Nat) (nphase nblock : BitVec 64) (hnc : 1 ≤ ncols) (hbound : 2 ^ d * ncols * 8 < 2 ^ 64)
+    (hsrc : (hp.block Sx).size = 2 ^ d * ncols) (hdsts : mode = .other → (hp.block D).size = 2 ^ d * ncols)
+    (hf : itersFuel self d ncols ≤ fuel) :
+    ∃ out, NTT_INTT fuel hp self dst ⟨Sx, 0⟩ (bv (2 ^ d)) (bv ncols) Ptr.null nphase nblock false = some (hp.setBlock D out) ∧
+      out.size = 2 ^ d * ncols ∧
+      ∀ k c, k < 2 ^ d → c < ncols →
+        den (out.getD (k * ncols + c) 0#64)
+          = ((2 ^ d : Nat) : F)⁻¹ * ∑ j ∈ range (2 ^ d), den ((hp.block Sx).getD (j * ncols + c) 0#64) * (omega d)⁻¹ ^ (j * k) := by
+  have hm : maxDomainSize ≠ 0 := by have := Nat.two_pow_pos d; omega
+  obtain ⟨hs1, hs2, hs3⟩ := mkObj_s_val maxDomainSize extension o hm hobj
+  have hdl : d ≤ log2 maxDomainSize := (Nat.le_log2 hm).mpr hn
+  obtain ⟨out, e, hsz, hdft⟩ := C04_inverse_transform maxDomainSize extension o hobj hext d hn ncols nphase.toNat nblock.toNat
+    hnc mode (hp.block D) (hp.block Sx) hsrc hdsts
+  have hg := INTT_gen_all fuel hp self o hrep hin D Sx hD hSx hD0 hfrD mode hmode dst hdst d (2 ^ d) ncols nphase nblock false
+    hd30 rfl (by omega) hs2 hnc hbound (by omega) (by intro h; cases h) hf
+  rw [e] at hg
+  exact ⟨out, hg, hsz, hdft⟩
+
+/-- generated `INTT` WITH a caller scratch buffer (any content) = the model's `intt`, bit for bit, every `nblock`, every size -/
+theorem C04_generated_INTT_buffer_eq_model (fuel : Nat) (hp : Heap) (self : NTT_Goldilocks) (o : Obj)
+    (hrep : ObjRep hp self o) (hin : ObjIn hp self) (D Sx B : Nat) (hD : D < hp.size) (hSx : Sx < hp.size) (hB : B < hp.size)
+    (hD0 : D ≠ 0) (hB0 : B ≠ 0) (hDB : D ≠ B) (hSB : Sx ≠ B) (hfrD : ObjFrame self D) (hfrB : ObjFrame self B)
+    (mode : DstMode) (hmode : mode = .other ↔ D ≠ Sx)
+    (dst : Ptr) (hdst : (if (dst == Ptr.null) = true then (⟨Sx, 0⟩ : Ptr) else dst) = ⟨D, 0⟩)
+    (K N NC : Nat) (nphase nblock : BitVec 64) (extend : Bool)
+    (hK : K ≤ 30) (hN : N = 2 ^ K) (hKs : K ≤ o.s) (hos : o.s ≤ 32) (hNC1 : 1 ≤ NC)
+    (hNNC8 : N * NC * 8 < 2 ^ 64) (hext31 : o.extension < 2 ^ 31) (hcache : extend = true → o.rcache ≠ none)
+    (hf : itersFuel self K NC ≤ fuel) (hdsz : N * NC ≤ (hp.block D).size) (hbuf : N * NC ≤ (hp.block B).size) :
+    match intt o mode (hp.block D) (hp.block Sx) N NC nphase.toNat nblock.toNat extend with
+    | .ok (d, _) => ∃ X', NTT_INTT fuel hp self dst ⟨Sx, 0⟩ (bv N) (bv NC) ⟨B, 0⟩ nphase nblock extend =
+        some ((hp.setBlock D d).setBlock B X') ∧ X'.size = (hp.block B).size
+    | .error _ => NTT_INTT fuel hp self dst ⟨Sx, 0⟩ (bv N) (bv NC) ⟨B, 0⟩ nphase nblock extend = none :=
+  INTT_gen_buf_all fuel hp self o hrep hin D Sx B hD hSx hB hD0 hB0 hDB hSB hfrD hfrB mode hmode dst hdst K N NC nphase nblock
+    extend hK hN hKs hos hNC1 hNNC8 hext31 hcache hf hdsz hbuf
+
+/-- **the property on the generated function, caller scratch buffer, every `nblock`, every size 1 ≤ 2^d** -/
+theorem C04_generated_inverse_transform_buffer_all (maxDomainSize extension : Nat) (o : Obj)
+    (hobj : mkObj maxDomainSize extension = some o) (hext : extension ≤ 1) (d : Nat) (hd30 : d ≤ 30)
+    (hn : 2 ^ d ≤ maxDomainSize)
+    (fuel : Nat) (hp : Heap) (self : NTT_Goldilocks) (hrep : ObjRep hp self o) (hin : ObjIn hp self)
+    (D Sx B : Nat) (hD : D < hp.size) (hSx : Sx < hp.size) (hB : B < hp.size) (hD0 : D ≠ 0) (hB0 : B ≠ 0) (hDB : D ≠ B)
+    (hSB : Sx ≠ B) (hfrD : ObjFrame self D) (hfrB : ObjFrame self B)
+    (mode : DstMode) (hmode : mode = .other ↔ D ≠ Sx)
+    (dst : Ptr) (hdst : (if (dst == Ptr.null) = true then (⟨Sx, 0⟩ : Ptr) else dst) = ⟨D, 0⟩)
+    (ncols : Nat) (nphase nblock : BitVec 64) (hnc : 1 ≤ ncols) (hbound : 2 ^ d * ncols * 8 < 2 ^ 64)
+    (hsrc : (hp.block Sx).size = 2 ^ d * ncols) (hdsts : (hp.block D).size = 2 ^ d * ncols)
+    (hbuf : 2 ^ d * ncols ≤ (hp.block B).size) (hf : itersFuel self d ncols ≤ fuel) :
+    ∃ out X', NTT_INTT fuel hp self dst ⟨Sx, 0⟩ (bv (2 ^ d)) (bv ncols) ⟨B, 0⟩ nphase nblock false =
+        some ((hp.setBlock D out).setBlock B X') ∧
+      out.size = 2 ^ d * ncols ∧ X'.size = (hp.block B).size ∧
+      ∀ k c, k < 2 ^ d → c < ncols →
+        den (out.getD (k * ncols + c) 0#64)
+          = ((2 ^ d : Nat) : F)⁻¹ * ∑ j ∈ range (2 ^ d), den ((hp.block Sx).getD (j * ncols + c) 0#64) * (omega d)⁻¹ ^ (j * k) := by
+  have hm : maxDomainSize ≠ 0 := by have := Nat.two_pow_pos d; omega
+  obtain ⟨hs1, hs2, hs3⟩ := mkObj_s_val maxDomainSize extension o hm hobj
+  have hdl : d ≤ log2 maxDomainSize := (Nat.le_log2 hm).mpr hn
+  obtain ⟨out, e, hsz, hdft⟩ := C04_inverse_transform maxDomainSize extension o hobj hext d hn ncols nphase.toNat nblock.toNat
+    hnc mode (hp.block D) (hp.block Sx) hsrc (fun _ => hdsts)
+  have hg := INTT_gen_buf_all fuel hp self o hrep hin D Sx B hD hSx hB hD0 hB0 hDB hSB hfrD hfrB mode hmode dst hdst d (2 ^ d) ncols
+    nphase nblock false hd30 rfl (by omega) hs2 hnc hbound (by omega) (by intro h; cases h) hf (by omega) hbuf
+  rw [e] at hg
+  obtain ⟨X', hX, hXs⟩ := hg
+  exact ⟨out, X', hX, hsz, hXs, hdft⟩
+
+end generated_all
 
 end GoldilocksVerif.C04
